@@ -192,6 +192,17 @@ def run(res, tier, seed):
         for pl in (200, 5000, 10000000):
             cases.append({"b64": base64.b64encode(s.encode()).decode(), "oplimit": 30000, "parselimit": pl, "mode": 0})
             meta.append((s, "parse-budget", "any", 30000, 0, pl))
+    # lazily compiled bodies (functions / computed values restored from JSON) are parsed under the parse budget and the capacity
+    # of the VM that uses them: over the limit is an error there too, never a silent null
+    for nterms in (300, 3000):
+        big = "+".join(["1"] * nterms)
+        for pre, use in ((f"func g0(n) {{ n+{big} }}", "g0(1)"), (f"&va = {big}", "va"), (f"func g0(n) {{ n+{big} }}", "x = g0(1); x"),
+                         (f"func g1() {{ 7 }}; func g0(n) {{ g1()+{big} }}", "g0(1) + g1()")):
+            for pl in (200, 20000, 10000000):
+                want = ("value", None) if False else "any"
+                cases.append({"b64": base64.b64encode(use.encode()).decode(), "oplimit": 30000, "parselimit": pl, "mode": 0,
+                              "lazypre": base64.b64encode(pre.encode()).decode()})
+                meta.append((pre + "  ||restored, then||  " + use, "lazy-parse-budget", ("lazy", nterms), 30000, 0, pl))
     rows, fatal = run_cases(cases, timeout=60 if tier == "quick" else 240)
     found = 0
     kinds = {}
@@ -227,6 +238,13 @@ def run(res, tier, seed):
         if exec_ms > (3000 if L == 50 else 20000):
             res.violation(dict(desc, what=f"execution took {exec_ms} ms under OpCountLimit={L}", ops=row["ops"]))
             found += 1
+        if isinstance(exp, tuple) and exp[0] == "lazy" and row.get("ok"):
+            # the body sums exp[1] ones (+ the argument / g1): a value is fine only if it is that sum, i.e. the whole body was compiled and run
+            ok_vals = {str(exp[1]), str(exp[1] + 1), str(exp[1] + 7), str(exp[1] + 14)}
+            if row.get("str") not in ok_vals:
+                res.violation(dict(desc, what=f"a lazily compiled body that exceeds the parse budget returned {row.get('str')!r} instead of an error "
+                                              f"(its full evaluation gives one of {sorted(ok_vals)})"))
+                found += 1
         if exp == "capacity" and row.get("ok"):
             res.violation(dict(desc, what="a container beyond the 512-element capacity was requested and the program returned a value instead of an error",
                                value=row.get("str")))
@@ -234,7 +252,7 @@ def run(res, tier, seed):
         if exp == "budget" and row.get("ok"):
             res.violation(dict(desc, what="an unbounded computation returned a value under a budget", value=row.get("str")))
             found += 1
-        if isinstance(exp, tuple) and row.get("ok"):
+        if isinstance(exp, tuple) and exp[0] == "value" and row.get("ok"):
             if row.get("str") != exp[1] or row.get("rest", 0) != 0:
                 res.violation(dict(desc, what=f"value {row.get('str')!r} (rest {row.get('rest')}) computed from a truncated / partially parsed program; "
                                               f"the whole program evaluates to {exp[1]}", ncode=row.get("ncode")))
